@@ -53,9 +53,16 @@ class FloorSim:
         if world['time']:
             vias = rng.choice([['ems'], ['ops'], ['ems', 'ops']])
         fresh = [rng.randrange(1, 10000) for _ in range(2)] if rng.random() < (0.01 if not big else 0.004) else []
-        return {'engine': self.name, 'world': world, 'vias': vias, 'fresh_hashseeds': fresh}
+        # history: datasets of the same model grid (same dimensions, sizes, layer depths) but another bathymetry, reduced
+        # earlier in the same process -- whatever emsarray remembers from them must not show in this dataset's floor
+        before = [rng.randrange(1 << 30) for _ in range(rng.choice([1, 1, 2]))] if rng.random() < 0.35 else []
+        return {'engine': self.name, 'world': world, 'vias': vias, 'fresh_hashseeds': fresh, 'before': before}
 
     def shrink(self, plan):
+        if plan.get('before'):
+            p = copy.deepcopy(plan)
+            p['before'] = plan['before'][1:]
+            yield p
         if plan['fresh_hashseeds']:
             p = copy.deepcopy(plan)
             p['fresh_hashseeds'] = []
@@ -105,7 +112,7 @@ class FloorSim:
 
     def run(self, plan, scratch, out):
         world = worldgen.World(plan['world'])
-        res = lifetimes.run_lifetime(_floor_lifetime, plan['world'], plan['vias'], scratch, None)
+        res = lifetimes.run_lifetime(_floor_lifetime, plan['world'], plan['vias'], scratch, plan.get('before') or [])
         if res['status'] != 'exit':
             out.harness_error = f'lifetime: {res["status"]}: {res["error"]}'
             return
@@ -113,6 +120,10 @@ class FloorSim:
             out.event(kind, **payload)
         results = res['obs'].get('results', [])
         pre = res['obs'].get('pre')
+        for bi, fs in enumerate(plan.get('before') or []):
+            wb = worldgen.World(_with_floor(plan['world'], fs))
+            self.judge(out, wb, plan, res['obs'].get(f'pre_before{bi}'), res['obs'].get(f'results_before{bi}', []), label=f'earlier dataset {bi}: ')
+            out.stats['probe.earlier_dataset_same_grid_other_floor'] += 1
         self.judge(out, world, plan, pre, results)
         used = sorted({v['depth'] for v in world.vars.values() if v.get('depth')})
         for seed in plan['fresh_hashseeds']:
@@ -142,10 +153,11 @@ class FloorSim:
         out.stats[f'depth_coords_used.{len(used)}'] += 1
         out.stats['floor_evaluations'] += len(results)
 
-    def judge(self, out, world, plan, pre, results):
+    def judge(self, out, world, plan, pre, results, label=''):
         P = 'C12'
         if pre is None:
             return
+        want_cls = worldgen.CONV_CLASS[world.conv]
         depth_dims = {d['dim'] for d in world.spec['depths']}
         depth_names = {d['name'] for d in world.spec['depths']}
         by_via = {}
@@ -157,6 +169,11 @@ class FloorSim:
             obs = r['obs']
             if r['order_ix'] > 0:
                 out.stats['probe.non_default_order_evaluated'] += 1
+            # 0. "geometry left as it was": the reduced dataset is still a dataset of the same convention
+            conv = obs.get('convention')
+            if pre.get('convention') == want_cls and conv != want_cls:
+                out.violate(P, 'convention-changed', None,
+                            f'{label}the reduced dataset is recognised as {conv if not isinstance(conv, dict) else "nothing (detection raises)"}, the input as {want_cls} (via {r["via"]})')
             # 1. depth variables
             for name, info in world.vars.items():
                 ov = obs['vars'].get(name)
@@ -179,7 +196,7 @@ class FloorSim:
                         bad = numpy.argwhere(~((got == want) | (numpy.isnan(got) & numpy.isnan(want))))
                         first = tuple(int(x) for x in bad[0]) if len(bad) else None
                         out.violate(P, 'deepest-value', None,
-                                    f'{name}: wrong ocean-floor values (via {r["via"]}, order {r["order"]}); first at {first}: got {got[first] if first else None} want {want[first] if first else None}')
+                                    f'{label}{name}: wrong ocean-floor values (via {r["via"]}, order {r["order"]}); first at {first}: got {got[first] if first else None} want {want[first] if first else None}')
                 else:
                     pv = pre['vars'][name]
                     if ov['dims'] != pv['dims'] or not common.arrays_equal_nan(
@@ -220,13 +237,19 @@ def _summary(obs):
                         for k, v in sorted(obs['vars'].items())}}
 
 
-def _evaluate(world_spec, vias, scratch, orders):
+def _with_floor(world_spec, floor_seed):
+    spec = copy.deepcopy(world_spec)
+    spec['floor_seed'] = floor_seed
+    return spec
+
+
+def _evaluate(world_spec, vias, scratch, orders, tag='input'):
     """yields result dicts; orders None = do not inject (real hash)."""
     import emsarray
     import emsarray.operations.depth as depth_mod
     world = worldgen.World(world_spec)
-    ds = common.open_world(world, scratch)
-    pre = observe.observe_dataset(ds, convention=False)
+    ds = common.open_world(world, scratch, tag=tag)
+    pre = observe.observe_dataset(ds, convention=True)
     depth_dims = [d['dim'] for d in world_spec['depths']]
     results = []
     perms = list(itertools.permutations(depth_dims)) if orders is None else orders
@@ -243,14 +266,21 @@ def _evaluate(world_spec, vias, scratch, orders):
                     coords = [ds[d['name']] for d in world_spec['depths']]
                     nsv = [ds[world_spec['time']['name']]] if world_spec['time'] else []
                     fl = depth_mod.ocean_floor(ds, coords, non_spatial_variables=nsv)
-                obs = observe.observe_dataset(fl, convention=False)
+                obs = observe.observe_dataset(fl, convention=True)
                 results.append({'via': via, 'order': list(order) if order else None, 'order_ix': oi, 'obs': obs, 'summary': _summary(obs)})
             except Exception as e:
                 results.append({'via': via, 'order': list(order) if order else None, 'order_ix': oi, 'error': observe.exc_info(e)})
     return pre, results
 
 
-def _floor_lifetime(ctx, world_spec, vias, scratch, _unused):
+def _floor_lifetime(ctx, world_spec, vias, scratch, before):
+    for bi, fs in enumerate(before or []):
+        pre_b, results_b = _evaluate(_with_floor(world_spec, fs), vias, scratch, [None], tag=f'before{bi}_')
+        for r in results_b:
+            ctx.emit('floor_before', n=bi, via=r['via'], ok='error' not in r,
+                     summary=r.get('summary') if 'error' not in r else {'exc': r['error']['exc'], 'frame': r['error']['frame']})
+        ctx.observe(f'pre_before{bi}', pre_b)
+        ctx.observe(f'results_before{bi}', results_b)
     pre, results = _evaluate(world_spec, vias, scratch, None)
     for r in results:
         ctx.emit('floor', via=r['via'], order=r['order'], ok='error' not in r,
